@@ -376,10 +376,33 @@ int parsec_vpmap_init_from_parameters(int _nbvp, int _nbthreadspervp, int _nbcor
         return PARSEC_ERR_BAD_PARAM;
     }
 
+    if( (_nbvp <= 0) || (_nbthreadspervp <= 0) || (_nbcores <= 0) ) {
+        parsec_warning("VPMAP choice rr:%d:%d:%d is invalid (the three values must be positive). Falling back to default!",
+                       _nbvp, _nbthreadspervp, _nbcores);
+        return PARSEC_ERR_BAD_PARAM;
+    }
+    int nbcores = DEFAULT_NB_CORE;
+#if defined(PARSEC_HAVE_HWLOC)
+    nbcores = parsec_hwloc_nb_real_cores();
+#endif
+    if( _nbcores > nbcores ) _nbcores = nbcores;  /* never bind outside of the cores that exist */
+
+    /* _nbvp virtual processes of _nbthreadspervp threads, bound round-robin on the first _nbcores cores */
     parsec_nbvp = _nbvp;
-    assert(0);  /* TODO: finish this */
+    parsec_vpmap = (vpmap_t*)calloc(parsec_nbvp, sizeof(vpmap_t));
+    int core = 0;
+    for( int v = 0; v < parsec_nbvp; v++ ) {
+        parsec_vpmap[v].nbthreads = _nbthreadspervp;
+        parsec_vpmap[v].threads = (vpmap_thread_t*)calloc(_nbthreadspervp, sizeof(vpmap_thread_t));
+        for( int t = 0; t < _nbthreadspervp; t++ ) {
+            parsec_vpmap[v].threads[t].nbcores = 1;
+            parsec_vpmap[v].threads[t].cpuset = HWLOC_ALLOC();
+            parsec_vpmap[v].threads[t].ht = 0;
+            HWLOC_SET(parsec_vpmap[v].threads[t].cpuset, core);
+            core = (core + 1) % _nbcores;
+        }
+    }
     parsec_nb_total_threads = _nbvp * _nbthreadspervp;
-    (void)_nbcores;
     return PARSEC_SUCCESS;
 }
 
